@@ -61,7 +61,21 @@ Theorem C10_go_handlers_reject_wrong_role :
   go_UpdateTokenController_auth.
 Proof. split; [exact go_AcceptOwner_auth_proof|]. split; [exact go_AddRemoteTokenMessenger_auth_proof|]. split; [exact go_DisableAttester_auth_proof|]. split; [exact go_EnableAttester_auth_proof|]. split; [exact go_LinkTokenPair_auth_proof|]. split; [exact go_PauseBurningAndMinting_auth_proof|]. split; [exact go_PauseSendingAndReceivingMessages_auth_proof|]. split; [exact go_RemoveRemoteTokenMessenger_auth_proof|]. split; [exact go_SetMaxBurnAmountPerMessage_auth_proof|]. split; [exact go_UnlinkTokenPair_auth_proof|]. split; [exact go_UnpauseBurningAndMinting_auth_proof|]. split; [exact go_UnpauseSendingAndReceivingMessages_auth_proof|]. split; [exact go_UpdateAttesterManager_auth_proof|]. split; [exact go_UpdateMaxMessageBodySize_auth_proof|]. split; [exact go_UpdateOwner_auth_proof|]. split; [exact go_UpdatePauser_auth_proof|]. split; [exact go_UpdateSignatureThreshold_auth_proof|]. exact go_UpdateTokenController_auth_proof. Qed.
 
+(* Over a history: however many privileged transactions accounts that do not hold the matching role submit,
+   in whatever order, store and ledger stay exactly as they were (so nobody can work their way into a role). *)
+Theorem C10_non_holders_change_nothing_over_a_history : forall e h c, roles_set (c_st c) ->
+  (forall s, In s h -> exists r, role_of (snd s) = Some r /\ holder r (c_st c) <> Some (submitter (snd s))) ->
+  run e c h = c.
+Proof.
+  intros e h. induction h as [|s h IH]; intros c R A; cbn [run fold_left]; [reflexivity|].
+  fold (run e (run_step e c s) h). unfold run_step.
+  destruct (A s (or_introl eq_refl)) as (r&Hr&Hh).
+  destruct (C10_wrong_role_no_effect e c (fst s) (snd s) r R Hr Hh) as (_&->&_).
+  apply IH; [exact R|]. intros s' I. apply A. now right.
+Qed.
+
 Print Assumptions C10_wrong_role_no_effect.
 Print Assumptions C10_eighteen_privileged_types.
 Print Assumptions C10_roles_always_set.
 Print Assumptions C10_go_handlers_reject_wrong_role.
+Print Assumptions C10_non_holders_change_nothing_over_a_history.
